@@ -7,7 +7,8 @@ class C02(Prop):
     pid = "C02"; prop_file = "C02.v"
     rule = ("cases: as C01 plus contention profiles (several producers against a full ring, several consumers against an empty one); "
             "non-trivial = a context switch inside a reserve->publish or reserve->release window AND at least one full or empty answer")
-    trusted_base = ["the oracle's reading of 'full at some instant': N slot ids each taken by an accepted-and-unreceived event or by ANOTHER send in progress (the property's own enumeration)"]
+    trusted_base = ["channel level: a rejection is judged by a sound upper bound of the occupancy at every trace position (every other send / reservation counts from its first access, a slot is free again once the yield - zero-copy kinds: the drop of the handle - is recorded); the crossbeam and zero-copy Uni kinds run without a model (oracle only)",
+                    "the oracle's reading of 'full at some instant': N slot ids each taken by an accepted-and-unreceived event or by ANOTHER send in progress (the property's own enumeration)"]
     assumptions = ["payload type u32", "one shared access per grant"]
     def corpus_cases(self):
         return [ringgen.parse_case_line(F5_WITNESS)]
@@ -22,11 +23,13 @@ class C02(Prop):
         un = n // 2
         return [Suite("ring", ringgen.HEADER, cases), Suite("fsring", ringgen.HEADER, fs),
                 Suite("uni_move_atomic", unigen.HEADER, [unigen.gen_case(rng, "move_atomic") for _ in range(un)]),
-                Suite("uni_move_full_sync", unigen.HEADER, [unigen.gen_case(rng, "move_full_sync") for _ in range(un)])]
+                Suite("uni_move_full_sync", unigen.HEADER, [unigen.gen_case(rng, "move_full_sync") for _ in range(un)]),
+                Suite("uni_move_atomic_entry_points", unigen.XHEADER, [unigen.gen_entry_case(rng, "move_atomic", Ns=(2, 4)) for _ in range(un)])
+                ] + unigen.oracle_only_suites(rng, un, Ns=(2, 2, 4))
     def oracle(self, case, recs):
         if "chan" in case.meta:
             from .. import unigen
-            return unigen.uni_oracle_exactly_once(case, recs)
+            return unigen.uni_oracle_exactly_once(case, recs) + unigen.uni_oracle_justified_full(case, recs)
         hits = ringgen.oracle_exactly_once(case, recs) + ringgen.oracle_fifo_bounds(case, recs)
         if case.meta.get("kind") == "fsring":
             # the full-sync ring has no exception class: its full / empty answers are exact
@@ -41,4 +44,4 @@ class C02(Prop):
         lines = [l for l in text.splitlines() if l.strip() and not l.startswith("#")]
         from .. import unigen
         cases = [unigen.parse_case_line(l) if l.startswith("uni ") else ringgen.parse_case_line(l) for l in lines]
-        return Suite("replay", unigen.HEADER + "\n" + ringgen.HEADER, cases)
+        return Suite("replay", unigen.XHEADER + "\n" + ringgen.HEADER, cases)
